@@ -10,7 +10,8 @@ from symsig import scalar as S
 
 PROPERTY = "C07"
 FUNCTIONS = ["sigpy.interp.interpolate", "sigpy.interp.gridding", "sigpy.interp._interpolate1/2/3 and _gridding1/2/3 (numba kernels run as Python)",
-             "sigpy.interp._spline_kernel", "sigpy.interp._kaiser_bessel_kernel (called, body not re-derived)"]
+             "sigpy.interp._spline_kernel (symbolic argument vs documented pieces)",
+             "sigpy.interp._kaiser_bessel_kernel (symbolic argument: support incl. end points, >= 1 on it, even, <= I0(beta); values called in the sum oracle)"]
 BOUNDS = {"quick": "concrete coordinate sets (fractional, integer, half-integer ties, negative, far outside, duplicates) x kernels spline 0/1/2, "
                    "kaiser_bessel x widths {1,1.5,2,3,4} and per-axis widths/params, 1-3 dims, batch axes, grid lengths 1..4, data symbolic; "
                    "symbolic coordinates: 1-D, 1 point, grid 3, k in [-4, 7], widths {1, 2, 3}, spline 0/1/2",
@@ -132,7 +133,33 @@ def h_interp(cfg, V):
             ("shapes", O.const(list(np.shape(out_i)) == batch + [npts] and list(np.shape(out_g)) == batch + gshape))]
 
 
-HARNESSES = {"interp": h_interp}
+def h_kernel(cfg, V):
+    """the kernel functions themselves, argument symbolic: spline pieces = documented formulas; Kaiser-Bessel: support [-1, 1] INCLUDING the
+    end points (K(+-1) = I0(0) = 1), K >= 1 on the support (I0 >= 1), even, 0 outside"""
+    from sigpy import interp
+    u = V.scalar("u")
+    V.assume(u >= -2, "u >= -2")
+    V.assume(u <= 2, "u <= 2")
+    kernel, prm = cfg["kernel"], cfg["param"]
+    if kernel == "spline":
+        got = interp._spline_kernel(u, prm)
+        return [("spline_kernel_is_documented_formula", O.eq(got, _K("spline", u, prm) if V.symbolic else float(_K("spline", Fraction(u), prm))))]
+    got = interp._kaiser_bessel_kernel(u, prm)
+    neg = interp._kaiser_bessel_kernel(-u, prm)
+    inside = S.B.and_(O.le(u, 1), O.ge(u, -1)) if V.symbolic else O.const(-1 <= u <= 1)
+    obl = [("kb_zero_outside_support", O.implies(O.not_(inside), O.eq(got, 0))),
+           ("kb_at_least_one_on_closed_support", O.implies(inside, O.ge(got, 1))),
+           ("kb_even", O.eq(got, neg))]
+    import scipy.special as sc
+    top = float(sc.i0(prm)) * (1 + 1e-6)
+    obl.append(("kb_at_most_I0_beta", O.le(got, top)))
+    for e in (1.0, -1.0):
+        obl.append(("kb_end_point_%+d_is_one" % e, O.const(abs(float(interp._kaiser_bessel_kernel(e, float(prm))) - 1.0) < 1e-12)))
+    obl.append(("kb_centre_is_I0_beta", O.const(abs(float(interp._kaiser_bessel_kernel(0.0, float(prm))) / float(sc.i0(prm)) - 1) < 1e-6)))
+    return obl
+
+
+HARNESSES = {"interp": h_interp, "kernel": h_kernel}
 
 C1 = {"frac": [[0.3], [-1.6], [1.25]], "int": [[0.0], [1.0], [-2.0]], "half": [[0.5], [-1.5], [2.5]], "far": [[7.3], [-9.5]], "dup": [[0.25], [0.25]],
       "neg": [[-0.75], [-3.0]]}
@@ -162,6 +189,10 @@ def configs(tier, seed):
                 add([2, 3], [2], c, kern, [3, 1.5], prm, "2d-w2-" + cname)
                 add([1, 4], [], c, kern, [1, 4], prm, "2d-len1-" + cname)
         add([3, 3], [], C2["tie"], kern, [2, 3], prm, "2d-peraxis")
+        # grids with singleton axes: the kernel still contributes its weights along them
+        add([1, 3], [], C2["frac"], kern, [3, 2], prm, "2d-len1a")
+        add([3, 1], [], C2["tie"], kern, [2, 4], prm, "2d-len1b")
+        add([1, 2, 1], [], C3["frac"], kern, [2, 2, 3], prm, "3d-len1")
         for cname, c in C3.items():
             if full or cname == "tie":
                 add([2, 2, 3], [], c, kern, 2, prm, "3d-" + cname)
@@ -169,6 +200,10 @@ def configs(tier, seed):
     add([3, 3], [], C2["frac"], "spline", [2, 3], [1, 2], "2d-perparam")
     add([2, 2, 3], [], C3["tie"], "spline", 2, [0, 1, 2], "3d-perparam")
     add([3, 2], [], C2["frac"], "kaiser_bessel", [3, 2], [2.0, 5.5], "2d-perparam")
+    for prm in (0, 1, 2):
+        out.append({"id": "kernel:spline%d" % prm, "h": "kernel", "kernel": "spline", "param": prm})
+    for beta in (1.0, 2.34, 3.5):      # beta < 3.75 keeps the I0 approximation on its polynomial branch for symbolic arguments
+        out.append({"id": "kernel:kaiser_bessel:%s" % beta, "h": "kernel", "kernel": "kaiser_bessel", "param": beta})
     # symbolic coordinates (spline kernels): window bounds, wrap and kernel pieces for every real coordinate in the range
     for prm in (0, 1, 2):
         for w in ((1, 2, 3) if not full else (1, 1.5, 2, 3, 4)):
